@@ -503,8 +503,16 @@ fn gen(opts: &Opts) -> Vec<Case> {
         // only methods OpenAPI has a slot for (anything else makes document
         // generation panic: a stated precondition)
         let mut eps = rc.eps;
+        let std_methods = ["GET", "PUT", "POST", "DELETE", "OPTIONS", "HEAD", "PATCH", "TRACE"];
         for e in eps.iter_mut() {
             if rng.chance(1, 3) {
+                e.visible = false;
+            }
+            // an extension method has no slot in an OpenAPI path item: a
+            // PUBLISHED endpoint with one makes generation panic for the
+            // versions it is served at (a stated precondition; kept rare); an
+            // UNPUBLISHED one must not disturb the document at all
+            if !std_methods.contains(&e.method.to_uppercase().as_str()) && rng.chance(5, 6) {
                 e.visible = false;
             }
         }
